@@ -14,8 +14,9 @@ UNITS = ["    ", "    ", "  ", "\t", " ", "        "]
 NAMES = ["foo", "bar", "f", "Calc_1", "defx", "lambda_", "_p", "fooo", "def_", "x"]
 NEWNAMES = ["renamed", "g", "foo2", "a_very_long_name_for_a_cells", "k", "defy", "Foo"]
 COMMENTS = ["# plain", "# def g(x): return 1", '# """', "# 'quote", "#", "#   spaced   ", "# @deco",
-            "# lambda x: x", '# "', "# back\\slash", "# f(x):", "#!shebang-like", "# a # b", "# )]}"]
-STRS = ['"def q(): #"', "'#not a comment'", '"lambda x: x"', "'a\"b'", '"@x"', "'()'", '"a:b"',
+            "# lambda x: x", '# "', "# back\\slash", "# f(x):", "#!shebang-like", "# a # b", "# )]}",
+            "# caf\u00e9 \u65e5\u672c", "# \u00fc"]
+STRS = ["'a\x0cb'", '"\u00e9t\u00e9"', "'\u65e5'", '"def q(): #"', "'#not a comment'", '"lambda x: x"', "'a\"b'", '"@x"', "'()'", '"a:b"',
         '"\\\\"', "'''t'q'''", '"\\n"', 'r"\\d"', '""', "'def'"]
 SAFE_DOCS = ["Short.", "Two\nlines", "with 'single' quote", 'has "inner" quotes.', "trailing space ",
              "Multi\n\n    indented\nlast\n", "", "# hash", "def f(): pass", "x" * 70, "a\n", "\nstarts with a line feed",
@@ -329,7 +330,7 @@ class DefGen:
         unit = r.choice(UNITS)
         if "\t" in ind and unit[0] != "\t" and r.random() < 0.5:
             unit = "\t"
-        self.allow_mlstr = (ind == "")
+        self.allow_mlstr = True      # props/C20.py filters the D33 trigger (indented text) and counts it
         name = r.choice(NAMES)
         ps = self.params()
         env = [(p["name"], p["kind"]) for p in ps]
@@ -620,6 +621,7 @@ LAM_EMBED = [
     ("baz(k=", ")"), ("d = {'k': ", "}"), ("foo = ", "; z = 1"), ("foo(1, ", ", lambda z_: z_)"),
     ("y = x = ", ""), ("foo = ", " "), ("(", ")"), ("foo = ( ", " )"), ("a.b.c = ", ""), ("'lambda: 1'; foo = ", ""),
     ("foo = 'lambda q: q', ", ""), ("foo : object = ", ""), ("ret = grab(", ", 1, k=2)"),
+    ("'\u00e9\u65e5'; foo = ", ""),
 ]
 
 
